@@ -82,6 +82,9 @@ class C20(DiffProperty):
     libs = ["mptplot", "mptcore"]
     cxx_src = "c20_cxx.cpp"
     cxx_libs = ["mpt++", "mptplot", "mptcore", "mptio"]
+    # the C++ harness compiles mpt++/{array,item_group,graph,layout}.cpp into its own translation unit without UBSan's vptr check
+    # (C-made buffers of the item arrays), every other check stays on
+    cxx_flags = ["-fno-sanitize=vptr"]
     harness_env = dict(vcheck.ASAN_LEAK_ENV, ASAN_OPTIONS=vcheck.ASAN_LEAK_ENV["ASAN_OPTIONS"] + ":symbolize=0")
 
     # ------------------------------------------------------------------ probe: regenerate Gen_Layout.v
@@ -135,7 +138,7 @@ class C20(DiffProperty):
     def evaluate(self, cases, workdir, tagsuffix=""):
         hc = vcheck.build_harness(self.harness_src, self.libs, extra=self.ops_flags())
         need_x = any(c.startswith("x ") for c in cases)
-        hxx = vcheck.build_harness(self.cxx_src, self.cxx_libs, extra=self.ops_flags()) if need_x else None
+        hxx = vcheck.build_harness(self.cxx_src, self.cxx_libs, extra=self.ops_flags() + self.cxx_flags) if need_x else None
         mx = vcheck.build_model(self.mlname, self.driver, self.extract_vo)
         ided = ["c%d %s" % (i, c) for i, c in enumerate(cases)]
         ci = [l for l, c in zip(ided, cases) if not c.startswith("x ")]
@@ -156,10 +159,18 @@ class C20(DiffProperty):
             res.append(self.compare(c, I.get(k), M.get("M", {}).get(k), M.get("S", {}).get(k)))
         return res, errs + e2
 
+    def layout_patched(self):
+        """docs/c20_proposed_layout_object.diff applied to the tree? (class layout: properties readable as strings, reset,
+        font released; text::set_value / set_font report success when they clear)"""
+        try:
+            return "static_cast<const char *>(_alias)" in open(os.path.join(vcheck.REPO, "mpt++", "layout.cpp")).read()
+        except OSError:
+            return False
+
     def warm(self):
         vcheck.build_harness("c20_probe.c", ["mptplot", "mptcore"])
         vcheck.build_harness(self.harness_src, self.libs, extra=self.ops_flags())
-        vcheck.build_harness(self.cxx_src, self.cxx_libs, extra=self.ops_flags())
+        vcheck.build_harness(self.cxx_src, self.cxx_libs, extra=self.ops_flags() + self.cxx_flags)
         vcheck.build_model(self.mlname, self.driver, self.extract_vo)
         self.oracle_exe()
 
@@ -174,13 +185,15 @@ class C20(DiffProperty):
             head = "R"
         elif head == "qE":
             head = "qR"
+        elif head in ("B0", "B1"):
+            head = "B"          # bool of the direct C++ setters (text::set_value reports false when it clears the text)
         elif head.startswith("G:x=") or head.startswith("G:y="):
             head = head.rstrip("*")
         if rest:
             rest = self.STAR_XY.sub(r",\1=\2", rest)
         return head + sep + rest
 
-    ARITY = {"set": 3, "get": 2, "sp": 4}
+    ARITY = {"set": 3, "get": 2, "sp": 4, "clone": 1, "cpy": 1, "cset": 3, "conv": 2, "lreset": 1, "gadd": 3, "gitem": 5, "gbind": 1, "gtr": 1}
 
     def split(self, case):
         t = case.split()
@@ -472,6 +485,75 @@ class C20(DiffProperty):
                         add("c", kind, [(["sp", "a", str(fl), nm, s], sq)])
                         if fl in (48, 240):
                             add("x", kind, [(["sp", "a", str(fl), nm, s], sq)])
+        # 4b. mpt++ objects only: constructors with arguments, convert() of every class for every request, clone / struct copy,
+        #     direct setters, an object as source of a NAMED property, graph items / bind / transformation, class layout
+        REQS = ["me", "cptr", "obj", "meta", "grp", "coll", "otherptr", "str", "bad", "fmt0", "color", "lattr", "line"]
+        colour_name = {"text": "color", "world": "color", "graph": "fg", "line": "color", "axis": None}
+        for kind in KINDS:
+            pre = self.prefill(kind)
+            ctor = {"axis": ["axis", "axis:0", "axis:1", "axis:2", "axis:3", "axis:7", "axis:36"], "world": ["world", "world:-5", "world:0", "world:9"]}.get(kind, [kind])
+            for kt in ctor:
+                add("x", kt, [(["conv", "a", q], []) for q in REQS])
+                add("x", kt, [(["set", "a", hx(PROPS[kind][1][1][0]), "R"], []), (["clone", "a"], []), (["set", "a", "E", "R"], [])])
+            first = PROPS[kind][0][1][0]
+            # clone and struct copy keep the properties and own their strings: change the source afterwards
+            add("x", kind, pre + [(["clone", "a"], []), (["cpy", "b"], []), (["set", "a", "E", "R"], []), (["clone", "b"], []),
+                                  (["set", "b", hx(first), "R"], []), (["cpy", "a"], []), (["cpy", "a"], []), (["clone", "a"], [])])
+            add("x", kind, pre + [(["conv", "a", q], []) for q in ("color", "lattr", "line")])
+            # the other object as value of every named property
+            for listed, names, ftype in PROPS[kind]:
+                ops = list(pre)
+                if colour_name[kind]:
+                    ops = [(["set", "b", hx(colour_name[kind]), "T" + hx("#10203040")], [])] + ops
+                ops += [(["set", "a", hx(names[-1]), "O"], []), (["set", "b", hx(names[0]), "O"], [])]
+                add("x", kind, ops)
+        for t in ["ab", "x" * 255, "y" * 256, " sp ", "\xff"]:
+            add("x", "text", [(["cset", "a", "value", hx(t)], []), (["cset", "b", "font", hx(t)], []), (["clone", "a"], []), (["cset", "a", "font", hx("f")], [])])
+            add("x", "world", [(["cset", "a", "alias", hx(t)], []), (["cset", "a", "alias", "-"], []), (["cset", "b", "alias", hx(t)], []), (["cset", "b", "alias", "N"], [])])
+        # graph: items of the group, the axes / worlds name lists, bind, transformation
+        ITEM_T = ["axis", "xaxis", "yaxis", "zaxis", "world", "line", "text", "graph", "bogus", "axi", "worlds"]
+        NAMES = ["ax", "ay", "wl", "w2", "zz"]
+        for i in range(60 if quick else 1500):
+            ops = []
+            for _ in range(rng.choice([2, 4, 6, 9])):
+                r = rng.random()
+                tg = rng.choice(["a", "a", "b"])
+                if r < 0.35:
+                    ty = rng.choice(ITEM_T)
+                    prop, val = rng.choice([("N", "T-"), ("int", "Tlog"), ("sub", "T3"), ("cyc", "T7"), ("title", "Tt"), ("nosuch", "T1"), ("width", "T4"),
+                                            ("begin", "T5"), ("end", "T-2.5")])
+                    tok, q = self.text_tok(val[1:], prop in ("begin", "end")) if val != "T-" else ("T-", None)
+                    t, qq = self.src_item(tok, q)
+                    ops.append((["gitem", tg, hx(ty), rng.choice([hx(n) for n in NAMES] + ["N"]), "N" if prop == "N" else hx(prop), t], qq))
+                elif r < 0.5:
+                    ops.append((["gadd", tg, rng.choice(["axis", "world"]), rng.choice([hx(n) for n in NAMES] + ["N"])], []))
+                elif r < 0.7:
+                    nm = rng.choice(["axes", "worlds"])
+                    v = rng.choice(["R", "T" + hx("ax"), "T" + hx("ax ay"), "T" + hx(" ay  ax "), "T" + hx("wl"), "T" + hx("wl w2"), "T" + hx("no"), "T" + hx("ax ax"), "T-", "T20"])
+                    ops.append((["set", tg, hx(nm), v], []))
+                elif r < 0.85:
+                    ops.append((["gbind", tg], []))
+                elif r < 0.9:
+                    ops.append((["gtr", tg], []))
+                elif r < 0.95:
+                    ops.append((["clone", tg], []))
+                else:
+                    ops.append((["set", tg, rng.choice(["N", "E"]), "O"], []))
+            ops.append((["gbind", "a"], []))
+            ops.append((["gtr", "a"], []))
+            add("x", "graph", ops)
+        # class layout and the clearing direct setters of text: as patched by docs/c20_proposed_layout_object.diff
+        if self.layout_patched():
+            for t in ["", "a", "la yout", "x" * 255, "y" * 256]:
+                add("x", "layout", [(["set", "a", hx("alias"), "T" + hx(t)], []), (["set", "a", hx("FONT"), "T" + hx(t)], []), (["get", "a", hx("name")], []),
+                                    (["get", "a", hx("Font")], []), (["set", "b", "N", "T" + hx(t)], []), (["set", "a", hx("Name"), "R"], []),
+                                    (["set", "a", hx("font"), "R"], []), (["set", "b", "E", "R"], []), (["set", "b", "N", "R"], [])])
+            for src in ["TN", "Vs:" + hx("ab"), "Vs:N", "Vc:65", "Vi:5~40a00000/4014000000000000", "VC:ff102030"]:
+                add("x", "layout", [(["set", "a", hx("alias"), src], []), (["set", "b", hx("font"), src], []), (["set", "a", "N", src], [])])
+            add("x", "layout", [(["conv", "a", q], []) for q in REQS])
+            add("x", "layout", [(["cset", "a", "alias", hx("qq")], []), (["cset", "a", "lfont", hx("rr")], []), (["cset", "b", "lfont", "-"], []), (["lreset", "a"], []),
+                                (["set", "a", hx("nosuch"), "T31"], []), (["get", "a", hx("fon")], []), (["get", "a", hx("alia")], [])])
+            add("x", "text", [(["cset", "a", "value", hx("cd")], []), (["cset", "a", "value", "-"], []), (["cset", "a", "font", "N"], []), (["cset", "a", "font", hx("ff")], [])])
         cases = self.resolve(items)
         # 5. mpt_property_match: the real tables x every prefix / mlen, and synthetic tables
         for kind in KINDS:
@@ -522,16 +604,18 @@ class C20(DiffProperty):
     trusted = ["harness/c20_probe.c + props/c20.py:probe regenerate coq/C20/Gen_Layout.v (read tables, member layout, defaults) from the tree",
                "harness/c20_oracle.c: libc strtof/strtod and FPU casts as oracle for float text and float images",
                "string ownership (own copy, no double free, no leak) is observed by ASan/LeakSanitizer in the harness, not proved"]
-    level_text = ("proof: 30 Coq theorems over the transcribed setters/getters for every kind and every settable property, for ALL objects and ALL "
+    level_text = ("proof: 39 Coq theorems over the transcribed setters/getters for every kind and every settable property, for ALL objects and ALL "
                   "sources: every set/reset/assignment step and every mpt_object_set_property call (flags, name modes) is the specification's step "
                   "(C20_set_refines, C20_set_property_refines), histories over all operations from default or constructed objects without hypothesis "
                   "(C20_history_states_from_init), set_get, set_frame, reset_default, refused_unchanged (record level), copy_equal, colour_print_parse, "
                   "prefix_match_unique and C20_match_is_spec, lookup by name/prefix through the regenerated tables incl. the 'differs from default' "
                   "return value (C20_get_by_name, C20_get_flags), the mpt++ wrappers = the C functions and their constructors meet the invariant "
-                  "(C20_cxx_*), and the finite sweep get_table_fields_disjoint_in_bounds over the regenerated tables; tied to the code by differential execution")
+                  "(C20_cxx_*), every step of the mpt++ harness language (constructors with arguments, clone / struct copy, direct setters, object as value of a named "
+                  "property, convert(), graph items / bind) on the listed properties (C20_cxx_step_refines, C20_cxx_bind_*), class layout as patched (C20_layout_step_refines), and the finite sweep get_table_fields_disjoint_in_bounds over the regenerated tables; tied to the code by differential execution")
     level_note = ("trusted: Coq kernel; hand transcription validated by the correspondence run; extraction; harness; float parsing by libc oracle; "
-                  "string ownership observed by ASan/LSan only; the mpt++ classes are modelled as thin wrappers (their convert() beyond generic assignment "
-                  "of the own class, and constructors with arguments, are not exercised by the harness); typed values through mpt_object_set_property are not covered")
+                  "string ownership observed by ASan/LSan only; convert() result tables, graph item lists and clone of the mpt++ classes are mechanism validated by "
+                  "correspondence; class layout and the clearing text setters are modelled as patched by docs/c20_proposed_layout_object.diff and generated only "
+                  "when the tree has the patch; typed values through mpt_object_set_property are not covered")
     technique = "Coq proofs over an executable mechanism model + regenerated tables + differential correspondence check"
     assumptions = ["malloc/realloc/strdup succeed", "'C' locale", "libc strtof/strtod correctly rounded (oracle)"]
 
